@@ -23,6 +23,7 @@ type Step struct {
 	Act    string `json:"act"`
 	Prop   string `json:"prop"`
 	Soft   bool   `json:"soft"` // a mismatch is not a verdict by itself: the trace validation decides
+	Opt    bool   `json:"opt"`  // the step is skipped (with the rest of the behaviour) when an observation it refers to does not exist
 	Args   J      `json:"args"`
 	Expect J      `json:"expect"`
 }
@@ -136,6 +137,9 @@ func runVector(v *Vector, seed int64, wantTrace bool) VecResult {
 	for i, st := range v.Steps {
 		res.Steps++
 		argsAny, err := e.evalTree(st.Args)
+		if err != nil && st.Opt {
+			return res
+		}
 		if err != nil {
 			if hardSoFar() { // a consequence of the failure already recorded for this behaviour, not an infrastructure error
 				return res
